@@ -101,6 +101,22 @@ func Disk(w *world.World) map[string][]byte {
 // A world that does not type-check is a generator bug.
 func LoadAll(w *world.World) (*Loaded, error) { return LoadAllOrder(w, 0) }
 
+// LoadFor loads what `gogreement <roots>` loads: the named packages and their
+// transitive dependencies, nothing else - so the shared FileSet holds only
+// their files (a package of the world that is neither is simply not there).
+func LoadFor(w *world.World, parseSeed uint64, roots []string) (*Loaded, error) {
+	need := map[int]bool{}
+	for _, r := range roots {
+		if i := w.Index(r); i >= 0 {
+			need[i] = true
+			for _, j := range w.TransitiveDeps(i) {
+				need[j] = true
+			}
+		}
+	}
+	return loadSubset(w, parseSeed, need)
+}
+
 // WorldFaults maps the world's read faults to file names on the disk.
 func WorldFaults(w *world.World) map[string]string {
 	if w.Faults == nil {
@@ -147,11 +163,18 @@ func ApplyReadFault(kind string, name string, b []byte) ([]byte, error) {
 // which position base varies from run to run, while every package still lists
 // its files in directory order. parseSeed 0 = listed order.
 func LoadAllOrder(w *world.World, parseSeed uint64) (*Loaded, error) {
+	return loadSubset(w, parseSeed, nil)
+}
+
+func loadSubset(w *world.World, parseSeed uint64, need map[int]bool) (*Loaded, error) {
 	l := &Loaded{World: w, Fset: token.NewFileSet(), Disk: Disk(w), ReadFaults: WorldFaults(w)}
 	// parse everything first, in the seeded order
 	type pf struct{ name string }
 	var all []string
 	for i := range w.Pkgs {
+		if need != nil && !need[i] {
+			continue
+		}
 		p := &w.Pkgs[i]
 		for _, f := range p.Files {
 			all = append(all, FileName(w, p, f))
@@ -184,6 +207,9 @@ func LoadAllOrder(w *world.World, parseSeed uint64) (*Loaded, error) {
 	l.XTest = make([]*LPkg, len(w.Pkgs))
 	byPath := map[string]*LPkg{"unsafe": unsafeLPkg()}
 	for i := range w.Pkgs {
+		if need != nil && !need[i] {
+			continue
+		}
 		p := &w.Pkgs[i]
 		for _, variant := range []bool{false, true} {
 			if variant && !p.HasTestFiles() {
